@@ -15,22 +15,22 @@ theorem newCalls_trans {s s1 s2 : Sys} {l1 l2 : List Call} (h1 : Ext s s1 l1) (h
 
 /-- the task list `syncJobTasks` starts from: the tasks of the cached refs found by
 `getTaskForRef` (pod cache, or a live GET when the cache misses an unfinished ref or is stale) -/
-def tasks0 (s : Sys) (rj : Job) : List Task := tasksForRefs s rj.status.tasks
+def tasks0 (s : Sys) (jo : JobObj) (rj : Job) : List Task := tasksForRefs s jo rj.status.tasks
 
 /-- where a call issued by `syncJobTasks s jo rj` comes from.  `tasks1` is the task list after the
 creation step; the state `s'` and Job `rj'` a later handler runs on keep the clock, configuration
 and caches of `s` (`Ext`), the spec of `rj` (`SpecLe`: only the admission-error annotation may
 have been added, by the creation step) and differ from the Job after creation only in status. -/
 inductive TaskCallOrigin (s : Sys) (jo : JobObj) (rj : Job) (c : Call) : Prop
-  | create : c ∈ newCalls s (syncCreateTasks s jo rj (tasks0 s rj)).1 → TaskCallOrigin s jo rj c
+  | create : c ∈ newCalls s (syncCreateTasks s jo rj (tasks0 s jo rj)).1 → TaskCallOrigin s jo rj c
   | pending (s1 : Sys) (rj1 : Job) (tasks1 : List Task) (s' : Sys) (rj' : Job) (l : List Call) :
-      syncCreateTasks s jo rj (tasks0 s rj) = (s1, some (rj1, tasks1)) → Ext s s' l → SpecLe rj rj1 →
+      syncCreateTasks s jo rj (tasks0 s jo rj) = (s1, some (rj1, tasks1)) → Ext s s' l → SpecLe rj rj1 →
       SameSpec rj1 rj' → c ∈ newCalls s' (handlePendingTasks s' jo rj' tasks1).1 → TaskCallOrigin s jo rj c
   | kill (s1 : Sys) (rj1 : Job) (tasks1 : List Task) (s' : Sys) (rj' : Job) (l : List Call) :
-      syncCreateTasks s jo rj (tasks0 s rj) = (s1, some (rj1, tasks1)) → Ext s s' l → SpecLe rj rj1 →
+      syncCreateTasks s jo rj (tasks0 s jo rj) = (s1, some (rj1, tasks1)) → Ext s s' l → SpecLe rj rj1 →
       SameSpec rj1 rj' → c ∈ newCalls s' (handleKillJob s' jo rj' tasks1).1 → TaskCallOrigin s jo rj c
   | force (s1 : Sys) (rj1 : Job) (tasks1 : List Task) (s' : Sys) (rj' : Job) (l : List Call) :
-      syncCreateTasks s jo rj (tasks0 s rj) = (s1, some (rj1, tasks1)) → Ext s s' l → SpecLe rj rj1 →
+      syncCreateTasks s jo rj (tasks0 s jo rj) = (s1, some (rj1, tasks1)) → Ext s s' l → SpecLe rj rj1 →
       SameSpec rj1 rj' → c ∈ newCalls s' (handleForceDelete s' jo rj' tasks1).1 → TaskCallOrigin s jo rj c
 
 theorem handlePending_sameSpec (s : Sys) (jo : JobObj) (rj : Job) (tasks : List Task) (rj' : Job)
@@ -78,7 +78,7 @@ theorem handleForce_sameSpec (s : Sys) (jo : JobObj) (rj : Job) (tasks : List Ta
 theorem syncJobTasks_success (s : Sys) (jo : JobObj) (rj rjOut : Job)
     (h : (syncJobTasks s jo rj).2 = some rjOut) :
     ∃ s1 rj1 tasks1 s2 rj2 s3 rj3 s4 rj4 s5 rj5,
-      syncCreateTasks s jo rj (tasks0 s rj) = (s1, some (rj1, tasks1)) ∧
+      syncCreateTasks s jo rj (tasks0 s jo rj) = (s1, some (rj1, tasks1)) ∧
       updateTaskRefStatus s1 (jobKey jo) rj1 tasks1 = (s2, rj2) ∧
       handlePendingTasks s2 jo rj2 tasks1 = (s3, some rj3) ∧
       handleKillJob s3 jo rj3 tasks1 = (s4, some rj4) ∧
@@ -90,8 +90,8 @@ theorem syncJobTasks_success (s : Sys) (jo : JobObj) (rj rjOut : Job)
       rj3.status.parallelStatus = rj2.status.parallelStatus := by
   unfold syncJobTasks at h ⊢
   simp only at h ⊢
-  obtain ⟨lc, ec, _, _, _, hcres⟩ := syncCreateTasks_ext s jo rj (tasksForRefs s rj.status.tasks)
-  generalize hcr : syncCreateTasks s jo rj (tasksForRefs s rj.status.tasks) = cr at *
+  obtain ⟨lc, ec, _, _, _, hcres⟩ := syncCreateTasks_ext s jo rj (tasksForRefs s jo rj.status.tasks)
+  generalize hcr : syncCreateTasks s jo rj (tasksForRefs s jo rj.status.tasks) = cr at *
   obtain ⟨s1, o1⟩ := cr
   cases o1 with
   | none => cases h
@@ -143,11 +143,11 @@ theorem syncJobTasks_origin (s : Sys) (jo : JobObj) (rj : Job) :
     ∀ c ∈ newCalls s (syncJobTasks s jo rj).1, TaskCallOrigin s jo rj c := by
   unfold syncJobTasks
   simp only
-  obtain ⟨lc, ec, _, _, _, hcres⟩ := syncCreateTasks_ext s jo rj (tasksForRefs s rj.status.tasks)
+  obtain ⟨lc, ec, _, _, _, hcres⟩ := syncCreateTasks_ext s jo rj (tasksForRefs s jo rj.status.tasks)
   have hcreate : ∀ c ∈ lc, TaskCallOrigin s jo rj c := fun c hc => .create (by
-    show c ∈ newCalls s (syncCreateTasks s jo rj (tasksForRefs s rj.status.tasks)).1
+    show c ∈ newCalls s (syncCreateTasks s jo rj (tasksForRefs s jo rj.status.tasks)).1
     rw [ec.newCalls]; exact hc)
-  generalize hcr : syncCreateTasks s jo rj (tasksForRefs s rj.status.tasks) = cr at *
+  generalize hcr : syncCreateTasks s jo rj (tasksForRefs s jo rj.status.tasks) = cr at *
   obtain ⟨s1, o1⟩ := cr
   cases o1 with
   | none =>
